@@ -19,18 +19,21 @@ def gen_data(rng, quick):
     from code_data import (AdditionalLine, Args, Cellvar, CodeData, Constant, Freevar, Function, Instruction, Jump, Name, NoArg, Varname)
     is_fn = rng.random() < 0.6
     nposonly = rng.randint(0, 1) if (V38 and is_fn and rng.random() < 0.3) else 0
+    vp = rng.choice(["va", "va", ""]) if is_fn and rng.random() < 0.3 else None
+    vk = rng.choice(["kw", "kw"] + ([""] if vp != "" else [])) if is_fn and rng.random() < 0.3 else None
     args = Args(positional_only=tuple("p%d" % i for i in range(nposonly)),
                 positional_or_keyword=tuple("a%d" % i for i in range(rng.randint(0, 2))) if is_fn else (),
-                var_positional="va" if is_fn and rng.random() < 0.3 else None,
+                var_positional=vp,
                 keyword_only=tuple("k%d" % i for i in range(rng.randint(0, 2))) if is_fn and rng.random() < 0.4 else (),
-                var_keyword="kw" if is_fn and rng.random() < 0.3 else None)
+                var_keyword=vk)
     doc = rng.choice([None, None, "the docstring"]) if is_fn else None
     ftype = rng.choice([None, None, "GENERATOR", "COROUTINE", "ASYNC_GENERATOR"]) if is_fn else None
     tp = Function(args, doc, ftype) if is_fn else None
     freevars = tuple("fv%d" % i for i in range(rng.choice([0, 0, 1, 3, 258])))
     nnames = rng.choice([3, 10, 260] if quick else [3, 10, 260, 300, 70000])
     names = ["n%d" % i for i in range(nnames)]
-    locs = list(args.parameters.keys()) + ["l%d" % i for i in range(rng.choice([1, 4, 258] if is_fn else [0]))]
+    locs = (list(args.positional_only) + list(args.positional_or_keyword) + ([vp] if vp is not None else [])
+            + list(args.keyword_only) + ([vk] if vk is not None else [])) + ["l%d" % i for i in range(rng.choice([1, 4, 258] if is_fn else [0]))]
     cells = ["c%d" % i for i in range(rng.choice([0, 0, 2]))]
     nblocks = rng.randint(1, 7)
     big = rng.random() < 0.5
@@ -123,7 +126,12 @@ def work(ctx):
             continue
         # 2. header
         if isinstance(d.type, Function):
-            mine = [(nme, int(k)) for nme, k in d.type.args.parameters.items()]
+            # what the data describes, read off the fields themselves (not through the library's .parameters)
+            a_ = d.type.args
+            mine = ([(nme, 0) for nme in a_.positional_only] + [(nme, 1) for nme in a_.positional_or_keyword]
+                    + ([(a_.var_positional, 2)] if a_.var_positional is not None else [])
+                    + [(nme, 3) for nme in a_.keyword_only]
+                    + ([(a_.var_keyword, 4)] if a_.var_keyword is not None else []))
             if independent_parameters(c) != mine:
                 ctx.violation("signature", "%s: signature %r, code object binds %r" % (what, mine, independent_parameters(c)), data)
             fl = c.co_flags
